@@ -12,7 +12,9 @@ Tag(p, obs) == {<<p \o ":" \o o[1], o[2]>> : o \in obs}
 ValidInput(ivs) == \A i \in 1..Len(ivs) : IsInterval(ivs[i])
 
 \* abstract state after k actions of a push / from_set behaviour
-Prefix(e, k) == IF e.route = "push" THEN SubSeq(e.ivs, 1, k - 1) ELSE SubSeq(e.ivs, 1, k)
+Prefix(e, k) == IF e.route = "push" THEN SubSeq(e.ivs, 1, k - 1)
+                ELSE IF e.route = "list+push" THEN SubSeq(e.ivs, 1, e.k + k - 1)      \* try_from_list of k intervals, then pushes
+                ELSE SubSeq(e.ivs, 1, k)
 
 StepObs(e, k) ==
   LET P == SeqSet(Prefix(e, k))
@@ -29,8 +31,9 @@ QueryObs(P, o, e) ==
    <<"interval_cover", \A j \in 1..Len(e.sets) : ObCover(P, o.ivs, <<e.sets[j].a, e.sets[j].b>>, e.sets[j])>>}
 
 BadPart(e) ==
-  IF e.route \in {"push", "from_set"} THEN
-     IF e.res # "ok" \/ Len(e.steps) # (IF e.route = "push" THEN Len(e.ivs) + 1 ELSE Len(e.ivs))
+  IF e.route \in {"push", "from_set", "list+push"} THEN
+     IF e.res # "ok" \/ Len(e.steps) # (IF e.route = "push" THEN Len(e.ivs) + 1
+                                        ELSE IF e.route = "list+push" THEN Len(e.ivs) - e.k + 1 ELSE Len(e.ivs))
      THEN {"C11:object_lifecycle"}
      ELSE LET P == SeqSet(e.ivs) IN
           Failed(Tag("C11", UNION {StepObs(e, k) : k \in 1..Len(e.steps)}
